@@ -38,7 +38,7 @@ func vfInitLemma() {
 	meta := zzverif.Region("meta", vfMetaBase, 4096, 1)
 	metaBase := uintptr(unsafe.Pointer(&meta[0]))
 	reserveRegionFn = func(size uintptr) (uintptr, *kernel.Error) {
-		zzverif.Assert(size == 4096, "allocator metadata fits in the one page this harness provides")
+		zzverif.Assert(zzverif.Or(size == 0, size == 4096), "allocator metadata fits in the one page this harness provides")
 		return metaBase, nil
 	}
 	mapFn = func(page mm.Page, frame mm.Frame, flags vmm.PageTableEntryFlag) *kernel.Error {
@@ -73,10 +73,10 @@ func vfInitLemma() {
 	pool := 0
 	var sumN, sumFree uint64
 	for i := 0; i < ne; i++ {
-		if !m.available(i) {
-			continue
+		if !m.available(i) || m.frameCount(i) == 0 {
+			continue // entries that are not available RAM or hold no whole frame get no pool
 		}
-		zzverif.Assert(pool < len(alloc.pools), "one pool per available entry")
+		zzverif.Assert(pool < len(alloc.pools), "one pool per available entry that holds a whole frame")
 		if pool >= len(alloc.pools) {
 			return
 		}
@@ -124,7 +124,7 @@ func vfInitLemma() {
 		sumFree += cnt - marked
 		pool++
 	}
-	zzverif.Assert(pool == len(alloc.pools), "no pool without an available entry")
+	zzverif.Assert(pool == len(alloc.pools), "no pool without an available entry that holds a whole frame")
 	zzverif.Assert(uint64(alloc.totalPages) == sumN, "totalPages is the number of usable frames of all pools")
 	zzverif.Assert(uint64(alloc.reservedPages) == sumN-sumFree, "reservedPages agrees with the bitmaps")
 }
